@@ -59,7 +59,7 @@ Proof.
   destruct (2 * r <? den) eqn:H1; [ apply Z.ltb_lt in H1 | apply Z.ltb_ge in H1 ].
   - (* -den <= 2 den (T-q) - 2r <= den, 0 <= 2r < den *)
     assert (T - q = 0); [ | lia ].
-    assert (- den < 2 * den * (T - q)) by lia.
+    assert (- den <= 2 * den * (T - q)) by lia.
     assert (2 * den * (T - q) < 2 * den) by lia.
     nia.
   - destruct (den <? 2 * r) eqn:H2; [ apply Z.ltb_lt in H2 | apply Z.ltb_ge in H2; lia ].
@@ -161,14 +161,17 @@ Proof.
   unfold code_gate, mode_gate in H.
   destruct (g_mode s); try discriminate.
   - destruct a as [ | | t | t ]; try reflexivity.
-    + destruct t as [ | x ds ]; reflexivity.
     + destruct t as [ | x [ | y tl ] ]; reflexivity.
+    + destruct t as [ | x ds ]; reflexivity.
   - destruct a as [ | | t | t ]; try discriminate; try reflexivity.
     destruct t as [ | x ds ]; reflexivity.
 Qed.
 
-Lemma blend_self : forall u c, blend_ok u c 255 c = true.
-Proof. intros. unfold blend_ok. apply Z.leb_le. lia. Qed.
+Lemma blend_self : forall u c, gblend_ok u c 255 c = true.
+Proof. intros. unfold gblend_ok. apply Z.leb_le. lia. Qed.
+
+Lemma near_a_refl : forall x a, near_a x x a = true.
+Proof. intros. unfold near_a. rewrite Z.eqb_refl. reflexivity. Qed.
 
 Lemma near_refl : forall x, near x x = true.
 Proof. intro. unfold near. apply Z.leb_le. lia. Qed.
@@ -180,9 +183,9 @@ Proof.
   destruct e as [ | num den back | c ].
   - destruct m; try discriminate. cbn in Hp. apply Z.eqb_eq in Hp. subst a.
     rewrite !near_refl. reflexivity.
-  - rewrite Z.eqb_refl, !near_refl. cbn. apply orb_true_r.
+  - rewrite Z.eqb_refl, !near_a_refl. cbn. apply orb_true_r.
   - destruct m; try discriminate. cbn in Hp. apply Z.eqb_eq in Hp. subst a.
-    unfold over_ok. cbn [p_r p_g p_b p_a]. rewrite !blend_self. reflexivity.
+    unfold gover_ok. cbn [p_r p_g p_b p_a]. rewrite !blend_self. reflexivity.
 Qed.
 
 Lemma verbatim_only_when_identity : forall sty a s method bg p,
